@@ -164,13 +164,9 @@ fn unstop(r: Result<Variable, ExecStop>) -> R {
     }
 }
 
-/// a pair of symbolic scalar operands of one symbolic kind (int, float or bool; full width) that
-/// the documented operand table of `op` admits (docs/operators.md) - the well-typedness the checker
-/// guarantees for scalar operands
-fn any_operands(op: BinOperator) -> (Variable, Variable) {
-    let k: u8 = kani::any();
-    kani::assume(k < 3);
-    let int_ok = true;
+/// does the documented operand table of `op` (docs/operators.md) admit operands of this kind?
+/// kind 0 = int, 1 = float, 2 = bool
+fn admits(op: BinOperator, kind: u8) -> bool {
     let float_ok = matches!(
         op,
         BinOperator::Add | BinOperator::Subtract | BinOperator::Multiply | BinOperator::Divide | BinOperator::Pow
@@ -183,19 +179,24 @@ fn any_operands(op: BinOperator) -> (Variable, Variable) {
         BinOperator::BitwiseAnd | BinOperator::BitwiseOr | BinOperator::Xor | BinOperator::Equal | BinOperator::NotEqual
             | BinOperator::Assign | BinOperator::AssignBitwiseAnd | BinOperator::AssignBitwiseOr | BinOperator::AssignXor
     );
-    kani::assume((k == 0 && int_ok) || (k == 1 && float_ok) || (k == 2 && bool_ok));
-    if k == 0 {
+    kind == 0 || (kind == 1 && float_ok) || (kind == 2 && bool_ok)
+}
+/// A pair of full-width symbolic scalar operands of the given *concrete* kind.  The kind is
+/// enumerated concretely because `Instruction` stores its own discriminant in the niche of the
+/// embedded `Variable`'s tag: a symbolic kind makes the instruction tag symbolic and CBMC then
+/// walks every instruction kind.
+fn operands(kind: u8) -> (Variable, Variable) {
+    if kind == 0 {
         (Variable::Int(kani::any()), Variable::Int(kani::any()))
-    } else if k == 1 {
+    } else if kind == 1 {
         (Variable::Float(kani::any()), Variable::Float(kani::any()))
     } else {
         (Variable::Bool(kani::any()), Variable::Bool(kani::any()))
     }
 }
-/// operand of unary `-` (int|float) / `!` (int|bool)
-fn any_unary_operand(minus: bool) -> Variable {
-    let k: bool = kani::any();
-    if k {
+/// operand of unary `-` (int|float) / `!` (int|bool); kind concrete
+fn unary_operand(minus: bool, second: bool) -> Variable {
+    if !second {
         Variable::Int(kani::any())
     } else if minus {
         Variable::Float(kani::any())
@@ -245,12 +246,18 @@ pub fn t_dispatch() {
     let mut k = 0;
     while k < OPS.len() {
         let op = OPS[k];
-        let (a, b) = any_operands(op);
+        let mut kind: u8 = 0;
+        while kind < 3 {
+        if admits(op, kind) {
+        let (a, b) = operands(kind);
         let mut interp = Interpreter::without_stdlib();
         let ins = BinOperation { lhs: Instruction::Variable(a.clone()), rhs: Instruction::Variable(b.clone()), op };
         let got = unstop(ins.exec(&mut interp));
         let want = expected(op, a, b);
         assert!(same_result(&got, &want));
+        }
+        kind += 1;
+        }
         k += 1;
     }
     kani::cover!(true);
@@ -266,7 +273,10 @@ macro_rules! t_fold_const {
             let mut k = $lo;
             while k < $hi {
                 let op = OPS[k];
-                let (a, b) = any_operands(op);
+                let mut kind: u8 = 0;
+        while kind < 3 {
+        if admits(op, kind) {
+        let (a, b) = operands(kind);
                 let interp = Interpreter::without_stdlib();
                 let mut lv = LocalVariables::new(&interp);
                 let ins = BinOperation { lhs: Instruction::Variable(a.clone()), rhs: Instruction::Variable(b.clone()), op };
@@ -283,6 +293,9 @@ macro_rules! t_fold_const {
                     Err(e) => assert!(same_result(&Err(e), &want)),
                 }
                 std::mem::forget(lv);
+                }
+                kind += 1;
+                }
                 k += 1;
             }
             kani::cover!(true);
@@ -304,7 +317,10 @@ macro_rules! t_partial_fold {
             let mut k = $lo;
             while k < $hi {
                 let op = OPS[k];
-                let (a, b) = any_operands(op);
+                let mut kind: u8 = 0;
+        while kind < 3 {
+        if admits(op, kind) {
+        let (a, b) = operands(kind);
                 let mut interp = Interpreter::without_stdlib();
                 let (lhs, rhs) = if $const_on_right {
                     (hidden(&new_cell(Type::Any, a.clone())), Instruction::Variable(b.clone()))
@@ -327,6 +343,9 @@ macro_rules! t_partial_fold {
                     }
                     Ok(_) => panic!("an operation with a non-constant operand was folded away"),
                     Err(e) => assert!(same_result(&Err(e), &want)),
+                }
+                }
+                kind += 1;
                 }
                 k += 1;
             }
@@ -351,7 +370,10 @@ macro_rules! t_assign {
             let mut k = $lo;
             while k < $hi {
                 let op = ASSIGN_OPS[k];
-                let (a, b) = any_operands(op);
+                let mut kind: u8 = 0;
+        while kind < 3 {
+        if admits(op, kind) {
+        let (a, b) = operands(kind);
                 let cell = new_cell(Type::Any, a.clone());
                 let mut interp = Interpreter::without_stdlib();
                 let ins = BinOperation {
@@ -367,6 +389,9 @@ macro_rules! t_assign {
                     Ok(v) => assert!(same_val(&content, v)),
                     Err(_) => assert!(same_val(&content, &a)),
                 }
+                }
+                kind += 1;
+                }
                 k += 1;
             }
             kani::cover!(true);
@@ -381,11 +406,12 @@ t_assign!(t_assign_2, 8, 12);
 stubbed! {
 /// unary - and ! : exec and fold go to their kernels
 pub fn t_unary() {
+    // which: 0 = -int, 1 = -float, 2 = !int, 3 = !bool
     let mut which = 0;
-    while which < 2 {
-        let a = any_unary_operand(which == 0);
+    while which < 4 {
+        let a = unary_operand(which < 2, which % 2 == 1);
         let native = !stubs_active();
-        let (op, want) = if which == 0 {
+        let (op, want) = if which < 2 {
             (UnaryOperator::UnaryMinus, if native { unary_minus::exec(a.clone()) } else { s_neg(a.clone()) })
         } else {
             (UnaryOperator::Not, if native { not::exec(a.clone()) } else { s_not(a.clone()) })
